@@ -24,6 +24,7 @@ import (
 	"go.opentelemetry.io/collector/exporter/exporterhelper/internal/requesttest"
 	"go.opentelemetry.io/collector/exporter/exportertest"
 	"go.opentelemetry.io/collector/pipeline"
+	"go.opentelemetry.io/collector/pipeline/xpipeline"
 )
 
 func vCfgErrStr(err error) string {
@@ -40,9 +41,15 @@ func vCfgErrStr(err error) string {
 		return "inv"
 	case strings.Contains(err.Error(), "sending queue is stopped"):
 		return "stopped"
+	case errors.As(err, &vCfgErr{}):
+		return "e1" // wait_for_result: the outcome of the request's own export
 	}
 	return "other:" + vHex(err.Error())
 }
+
+type vCfgErr struct{}
+
+func (vCfgErr) Error() string { return "verif export failure" }
 
 func vSizerName(s request.SizerType) string {
 	switch s {
@@ -125,6 +132,9 @@ func vConfigCase(out *vOut, c int) {
 	wfr := rnd.IntN(5) == 0
 	nCons := 1 + rnd.IntN(3)
 	batcherFirst := rnd.IntN(2) == 0
+	// all four signals: obsQueue picks its enqueue-failed counter by signal, and has none for profiles
+	signals := []pipeline.Signal{pipeline.SignalTraces, pipeline.SignalMetrics, pipeline.SignalLogs, xpipeline.SignalProfiles}
+	signal := signals[rnd.IntN(4)]
 
 	qCfg := queuebatch.Config{Enabled: queueEnabled, Sizer: szt, QueueSize: queueSize, BlockOnOverflow: block, WaitForResult: wfr, NumConsumers: nCons}
 	if queueBatch {
@@ -163,16 +173,24 @@ func vConfigCase(out *vOut, c int) {
 	} else if queueBatch {
 		shape = "queue-batch"
 	}
-	out.Linef("case %d cap=%d block=%d wfr=%d sizer=%s shape=%s queue_enabled=%d consumers=%d batcher_first=%d", c, wantCap, vB(wantBlock), vB(wantWfr), vSizerName(szt), shape, vB(queueEnabled), nCons, vB(batcherFirst))
+	out.Linef("case %d cap=%d block=%d wfr=%d sizer=%s shape=%s queue_enabled=%d consumers=%d batcher_first=%d signal=%s", c, wantCap, vB(wantBlock), vB(wantWfr), vSizerName(szt), shape, vB(queueEnabled), nCons, vB(batcherFirst), signal.String())
 
 	tt := componenttest.NewTelemetry()
 	set := exportertest.NewNopSettings(exportertest.NopType)
 	set.TelemetrySettings = tt.NewTelemetrySettings()
 	gate := make(chan struct{})
 	var exportedItems atomic.Int64
+	var failMu sync.Mutex
+	failing := map[request.Request]bool{} // requests whose export fails (only without a batcher: merged batches share one outcome)
 	pusher := func(_ context.Context, req request.Request) error {
 		<-gate
 		exportedItems.Add(int64(req.ItemsCount()))
+		failMu.Lock()
+		f := failing[req]
+		failMu.Unlock()
+		if f {
+			return vCfgErr{}
+		}
 		return nil
 	}
 	qbs := QueueBatchSettings[request.Request]{
@@ -190,7 +208,7 @@ func vConfigCase(out *vOut, c int) {
 	} else {
 		opts = append(opts, WithQueueBatch(qCfg, qbs), WithBatcher(bCfg))
 	}
-	be, err := NewBaseExporter(set, pipeline.SignalTraces, pusher, opts...)
+	be, err := NewBaseExporter(set, signal, pusher, opts...)
 	if err != nil {
 		out.Linef("viol sig=C02/config/constructor-rejects-valid-configuration sizer=%s shape=%s %s", vSizerName(szt), shape, vHex(err.Error()))
 		out.Linef("end")
@@ -237,7 +255,10 @@ func vConfigCase(out *vOut, c int) {
 		if offered >= 0 {
 			// direct oracle: an accepted request must raise the reported size by its CONFIGURED size
 			x := prods[offered]
-			if x.ret && x.res == "nil" && !wantWfr && size-prevSize != x.el {
+			if x.ret && x.res == "nil" && !wantWfr && x.el != 0 && size == prevSize {
+				// Send reported success, but the reported size did not move: nothing was enqueued (a refusal came back as nil)
+				out.Linef("viol sig=C02/config/refused-offer-reported-as-success/%s Send returned nil for a request of configured size %d, reported size stays %d (queue_size %d): the refusal of the queue was swallowed", signal.String(), x.el, size, wantCap)
+			} else if x.ret && x.res == "nil" && !wantWfr && size-prevSize != x.el {
 				unit := "other"
 				if size-prevSize == int64(x.items) {
 					unit = "items"
@@ -297,6 +318,12 @@ func vConfigCase(out *vOut, c int) {
 		mu.Lock()
 		prods[p] = x
 		mu.Unlock()
+		if shape == "plain" && rnd.IntN(4) == 0 {
+			failMu.Lock()
+			failing[req] = true
+			failMu.Unlock()
+			out.Linef("op outcome %d 1", p)
+		}
 		out.Linef("op offer %d %d", p, x.el)
 		go func() {
 			err := be.Send(ctx, req)
@@ -330,7 +357,7 @@ func vConfigCase(out *vOut, c int) {
 	snapshot(-1)
 	mu.Lock()
 	for _, x := range prods {
-		if x.ret && x.res == "nil" && x.el != 0 {
+		if x.ret && (x.res == "nil" || x.res == "e1") && x.el != 0 {
 			wantItems += int64(x.items)
 		}
 	}
@@ -348,5 +375,6 @@ func vConfigCase(out *vOut, c int) {
 		out.Linef("nt")
 	}
 	out.Linef("stat config_%s_%s 1", vSizerName(szt), shape)
+	out.Linef("stat config_signal_%s 1", signal.String())
 	out.Linef("end")
 }
